@@ -36,6 +36,15 @@ def _inline_return_helpers(repo, func):
     return Func(func.module, func.qualname, ast.fix_missing_locations(node), func.cls, func.parent)
 
 
+def _dict_updates(f):
+    """`D.update((k, v) for ...)` as the loop of stores it abbreviates (only when the function has such a call)."""
+    from ..core import desugar_comprehensions, inline_pure_temps
+
+    if any(isinstance(c, ast.Call) and isinstance(c.func, ast.Attribute) and c.func.attr == "update" and c.args and isinstance(c.args[0], (ast.GeneratorExp, ast.ListComp, ast.DictComp)) for c in walk_own(f.node)):
+        return desugar_comprehensions(f, kinds=("update",))
+    return f
+
+
 def build(ctx, rule):
     repo = ctx.repo
     mod = repo.module("gaftools.cli.order_gfa", rule)
@@ -60,7 +69,7 @@ def build(ctx, rule):
                         continue
                     rets = [r for r in walk_own(callee.node) if isinstance(r, ast.Return) and isinstance(r.value, ast.Tuple)]
                     if len(rets) >= 2:
-                        m.run, m.loop, m.call_stmt, m.dec = f, loop, st, _inline_return_helpers(repo, tail_inlined(repo, callee))  # also `return _skipped(bo)`
+                        m.run, m.loop, m.call_stmt, m.dec = f, loop, st, _dict_updates(_inline_return_helpers(repo, tail_inlined(repo, callee)))  # also `return _skipped(bo)`
                         m.run0 = mod.funcs[f.qualname]
     if m.run is None:
         raise AnalysisError(rule, mod.relpath, "cannot find the chromosome loop (for-loop unpacking the result of the per-component ordering function)")
